@@ -486,7 +486,7 @@ func genSrvFlow(p *prng, thorough bool, w *bufio.Writer) {
 		rounds = 800
 	}
 	for c := 0; c < rounds; c++ {
-		g.newConn(8, 0, 0)
+		g.newConn(32, 0, 0) // at most 4+19 streams per connection: none is refused
 		iw := uint32([]int{0, 1, 10, 100, 1000, 16384, 65535, 70000, 200000}[p.intn(9)])
 		if p.chance(1, 5) {
 			g.settings()
